@@ -680,3 +680,7 @@ def text_numbers(ctx):
             ctx.violate(q, 'the number %d in a script text becomes the data item %s, which reads as the script number %d (script number encoding: %s)' % (v, item.hex(), dec, _script_num(v).hex()), fn,
                         "Script.parse_str('200 OP_DROP') pushes c8 = -72; 300 becomes the CompactSize fd2c01")
     ctx.saw('%d numbers in a script text, %d encoded wrongly' % (len(nums), bad))
+
+
+from . import c19 as _c19
+PROP.obligation('C18.attr-memos')(_c19.attr_memos)
